@@ -152,6 +152,11 @@ class Tr(object):
           fail(a, 'argument of type %s where %s is expected' % (t, want))
         terms.append(term)
       return '(%s %s)' % (ident(f.id), ' '.join([ident(g) for g in self.globals] + terms)), rt, True
+    if isinstance(f, ast.Name) and f.id == 'reversed' and 'reversed' not in self.env and len(e.args) == 1:
+      term, t, _ = self.pure(e.args[0])
+      if t in ELEM:
+        return '(List.rev %s)' % term, t, True
+      fail(e, 'reversed of ' + t)
     if isinstance(f, ast.Attribute):
       obj, t, _ = self.pure(f.value)
       if f.attr == 'get' and t in DICT_VALUE and len(e.args) == 2:
